@@ -122,6 +122,19 @@ define_language! {
     }
 }
 
+// payload types other than u32 / Symbol, and a payload next to a slot and a (bound) child inside one named variant
+define_language! {
+    pub enum Pay {
+        Neg(AppliedId) = "neg",
+        Tag(u32, Slot, AppliedId) = "tag",
+        Scope(bool, Bind<AppliedId>) = "scope",
+        At(Slot) = "at",
+        Lit(i64),
+        Flag(bool),
+        Ch(char),
+    }
+}
+
 #[derive(Clone, Copy, Debug, PartialEq, Eq, Hash, PartialOrd, Ord, Serialize, Deserialize)]
 pub enum LangId {
     Core,
@@ -134,6 +147,7 @@ pub enum LangId {
     ArrayLang,
     Rise,
     Fp,
+    Pay,
 }
 
 pub const ALL_LANGS: &[LangId] = &[
@@ -147,6 +161,7 @@ pub const ALL_LANGS: &[LangId] = &[
     LangId::ArrayLang,
     LangId::Rise,
     LangId::Fp,
+    LangId::Pay,
 ];
 
 impl LangId {
@@ -240,6 +255,18 @@ impl LangId {
                     op("let", &[Kid(1), Kid(0)]),
                 ],
             },
+            LangId::Pay => LangSig {
+                name: "Pay",
+                ops: vec![
+                    op("at", &[SlotF]),
+                    op("", &[Field::PayOther(&["7", "-3", "0", "123456789012"])]),
+                    op("", &[Field::PayOther(&["true", "false"])]),
+                    op("", &[Field::PayOther(&["x", "q", "Z", "_"])]),
+                    op("neg", &[Kid(0)]),
+                    op("tag", &[PayU32, SlotF, Kid(0)]),
+                    op("scope", &[Field::PayOther(&["true", "false"]), Kid(1)]),
+                ],
+            },
             LangId::Fp => LangSig {
                 name: "Fp",
                 ops: vec![
@@ -299,6 +326,10 @@ macro_rules! with_lang {
             }
             $crate::langs::LangId::Fp => {
                 type $L = $crate::langs::Fp;
+                $body
+            }
+            $crate::langs::LangId::Pay => {
+                type $L = $crate::langs::Pay;
                 $body
             }
         }
